@@ -203,6 +203,24 @@ class BaseAllFixedSizeElementLocator
     }
 
   public:
+    BaseAllFixedSizeElementLocator(const BaseAllFixedSizeElementLocator&) = default;
+
+    constexpr BaseAllFixedSizeElementLocator(BaseAllFixedSizeElementLocator&& other) noexcept
+        : element_count_(other.element_count_), stride_(other.stride_)
+    {
+        other.element_count_ = {};
+    }
+
+    BaseAllFixedSizeElementLocator& operator=(const BaseAllFixedSizeElementLocator&) = default;
+
+    constexpr BaseAllFixedSizeElementLocator& operator=(BaseAllFixedSizeElementLocator&& other) noexcept
+    {
+        element_count_ = other.element_count_;
+        stride_ = other.stride_;
+        other.element_count_ = {};
+        return *this;
+    }
+
     constexpr bool empty(const std::byte*) const noexcept { return element_count_ == std::size_t{}; }
 
     static constexpr std::size_t memory_size() noexcept { return {}; }
